@@ -314,6 +314,33 @@ class CFG:
         return out
 
 
+def must_edges(cfg: CFG, src: Node, dst: Node, limit: int = 20000) -> set[tuple[Node, str]] | None:
+    """(branch node, label) edges taken on *every* simple path src -> dst that does not revisit src.
+
+    Used for per-iteration guards of a loop body (src = loop header): transitive control dependence is
+    polluted by the back edge, the intersection over acyclic paths is not. None if dst is unreachable."""
+    result: set[tuple[Node, str]] | None = None
+    count = 0
+    stack: list[tuple[Node, frozenset[int], tuple[tuple[Node, str], ...]]] = [(src, frozenset({src.id}), ())]
+    while stack:
+        n, seen, edges = stack.pop()
+        for s, lab in n.succ:
+            if s is dst:
+                e = set(edges)
+                if len(n.succ) > 1:
+                    e.add((n, lab))
+                result = e if result is None else (result & e)
+                count += 1
+                if count > limit:
+                    return result
+                continue
+            if s.id in seen:
+                continue
+            ne = edges + (((n, lab),) if len(n.succ) > 1 else ())
+            stack.append((s, seen | {s.id}, ne))
+    return result
+
+
 def stmts_no_nested(body: list[ast.stmt]):
     """Yield all statements in body recursively, not descending into nested def/class/lambda."""
     for st in body:
